@@ -28,6 +28,8 @@ C5Init0 == [dataSegs |-> 0,        \* distinct data segments emitted before the 
             recover |-> -1,       \* highest offset sent when loss recovery last started (RFC 6582 "recover")
             rtoPrev |-> -1,       \* time of the last timeout retransmission if NOTHING has arrived since (the peer is silent), else -1
             rtoGap |-> -1,        \* interval between the last two timeout retransmissions of that silent period, or -1
+            gapBase |-> FALSE,    \* rtoGap is the baseline interval: from the head's transmission to the FIRST timeout of the silent period
+            lastArr |-> -1,       \* time of the last arrival
             inRec |-> FALSE,      \* a fast retransmission started a recovery that no ACK >= recover has ended yet (bookkeeping for F28)
             exitHi |-> -1]        \* highest offset on the wire when the last such recovery ended: segments below it that lie at or
                                   \* beyond that recovery's `recover` were FIRST sent while it was in progress (known finding F28)
@@ -46,8 +48,11 @@ IsTimeoutRetx(c, off) == IsRetx(c, off) /\ off = c.una /\ c.needRetx # off /\ ~c
 \* emitted, so successive intervals are R + lateness, 2R + lateness, ...; lateness (timer goroutine scheduling) is the only
 \* slack needed: the larger of 60 ms and a quarter of the previous interval.  The doubling stops at the 60 s ceiling.
 MaxRTO == 60000000
-BackoffSlack(g) == IF g \div 4 > 60000 THEN g \div 4 ELSE 60000
-BackoffOK(c, t) == c.rtoGap >= 0 => t - c.rtoPrev >= (IF 2 * c.rtoGap > MaxRTO THEN MaxRTO ELSE 2 * c.rtoGap) - BackoffSlack(c.rtoGap)
+\* The FIRST doubling is checked against a baseline: when nothing at all has arrived since the head's (last) transmission at t0,
+\* the timer that fires at t1 was armed at t0 or earlier (it is armed when data goes out with no timer running and re-armed only
+\* by an ACK), so t1 - t0 <= R + lateness and the second timeout, 2R after t1, is at least twice that away (slack 100 ms there).
+BackoffSlack(g, base) == LET m == IF base THEN 100000 ELSE 60000 IN IF g \div 4 > m THEN g \div 4 ELSE m
+BackoffOK(c, t) == c.rtoGap >= 0 => t - c.rtoPrev >= (IF 2 * c.rtoGap > MaxRTO THEN MaxRTO ELSE 2 * c.rtoGap) - BackoffSlack(c.rtoGap, c.gapBase)
 InFlight(c, newsent) == Cardinality(Maximal({s \in newsent : s[2] > c.una}))
 
 \* the C05 clauses for an emitted data segment [off, off+len) at time t
@@ -68,7 +73,9 @@ C5AfterEmit(c, off, len, t, emitMaxBefore) ==
       fast == headRetx /\ (c.needRetx = off \/ c.mayRetx) IN          \* the retransmission three duplicate ACKs call for
   [c EXCEPT !.rtoPrev = IF tmo THEN t ELSE @,
             !.inRec = IF tmo THEN FALSE ELSE IF fast THEN TRUE ELSE @,
-            !.rtoGap = IF tmo /\ c.rtoPrev >= 0 THEN t - c.rtoPrev ELSE @,
+            !.rtoGap = IF tmo /\ c.rtoPrev >= 0 THEN t - c.rtoPrev
+                       ELSE IF tmo /\ c.lastArr < PrevTx(c, off) THEN t - PrevTx(c, off) ELSE @,
+            !.gapBase = IF tmo THEN c.rtoPrev < 0 ELSE @,
             !.dataSegs = IF c.ackedData \/ IsRetx(c, off) THEN @ ELSE @ + 1,
             !.sent = @ \cup {<<off, off + len>>},
             !.lastTx = (<<off, off + len>> :> t) @@ @,
@@ -81,7 +88,7 @@ C5AfterEmit(c, off, len, t, emitMaxBefore) ==
 \* kf28 = known finding F28 is tolerated: no fast retransmit is demanded for a segment first sent during a fast recovery
 \* (the stack moves its recover mark to SND.NXT-1 when the recovery ENDS); the clause itself is unchanged when kf28 is FALSE.
 C5AfterAck(c0, a, llen, wnd, t, sentEnd, kf28) ==
-  LET c == [c0 EXCEPT !.rtoPrev = -1, !.rtoGap = -1]          \* something arrived: the peer is not silent
+  LET c == [c0 EXCEPT !.rtoPrev = -1, !.rtoGap = -1, !.gapBase = FALSE, !.lastArr = t]          \* something arrived: the peer is not silent
       acked == a - 1
       newly == Cardinality(Maximal({s \in c.sent : s[2] <= acked /\ s[2] > c.una}))
       outstanding == \E s \in c.sent : s[2] > acked
